@@ -11,7 +11,11 @@ used here (C14 is about the kernels themselves).
 What is kept from the code on purpose (this is where it differs from the L1 spec):
 * hash tables are keyed by `DataValue`'s derived `Eq`: structural equality of `Val`
   (`NULL == NULL`, `Int32 1 ≠ Int64 1`); they are modelled as association lists in
-  first-insertion order (the iteration order of the real map is never observed: bags);
+  first-insertion order (the iteration order of the real map is never observed: bags).
+  Since the `fix:` commit "join keys compare by value" the key vectors are built through
+  `join_key` (`joinKey`: integers of every width → 64 bits): `hashJoin`, `hashSemiJoin`,
+  `hashSemiJoin2`, `mergeJoin` are the executors GIVEN their key vectors, the executors themselves
+  are `hashJoinW`, `hashSemiJoinW`, `hashSemiJoin2W`, `mergeJoinW` (the same on widened keys);
 * the nested-loop join evaluates the condition on the cross product `right × left` in windows
   of 1024 rows, remembers the bitmap and finds unmatched left rows by index arithmetic;
 * merge join groups *adjacent* equal keys (`group_by_keys`) and walks the two group streams;
@@ -401,15 +405,46 @@ def projExec (fs : List (Row → Val)) (Xs : List Chunk) : List Chunk := Xs.map 
 def rechunk (n : Nat) (Xs : List Chunk) : List Chunk :=
   if n == 0 then [flat Xs] else builderRun n (flat Xs) []
 
-/-- key equality as the hash / merge join executors decide it: structural equality (`DataValue`'s
-derived `Eq`) of NULL-free key vectors. -/
+/-- key equality as the hash / merge join executors decide it on the key vectors they are given:
+structural equality (`DataValue`'s derived `Eq`) of NULL-free key vectors. -/
 def jkEq (a b : List Val) : Bool := !hasNullKey a && !hasNullKey b && a == b
 
-/-- The forced hypothesis of every hash / merge join theorem: on the rows at hand, the executors' key
-equality coincides with SQL equality of the keys (what the join condition means).  NULL keys satisfy
-it by themselves (never equal on either side); what is left is that NULL-free keys that are SQL-equal
-are structurally equal — it fails for keys of different integer widths (`Int32 1` vs `Int64 1`). -/
+/-- The hypothesis of the hash / merge join theorems about the executors' bodies: on the rows at hand,
+structural key equality coincides with SQL equality of the keys (what the join condition means).  NULL
+keys satisfy it by themselves (never equal on either side); what is left is that NULL-free keys that
+are SQL-equal are structurally equal — it fails for RAW keys of different integer widths (`Int32 1`
+vs `Int64 1`), and it holds for every data once the keys are widened (`widen_keys_comparable`). -/
 def KeysComparable (lk rk : List (Row → Val)) (L R : List Row) : Prop :=
   ∀ l ∈ L, ∀ r ∈ R, jkEq (keyOf lk l) (keyOf rk r) = holds (keysEq3 (keyOf lk l) (keyOf rk r))
+
+/-! ## join keys compare by value (`join_key`, hash_join.rs)
+
+`keys.values().map(join_key).collect()` at every site that builds a key vector (hash join build and
+probe, hash semi / anti join with and without residual condition, `group_by_keys` of the merge
+join): an integer of any width becomes `Int64`, every other value is unchanged. -/
+
+def joinKey : Val → Val
+  | .i16 v => .i64 v
+  | .i32 v => .i64 v
+  | v => v
+
+/-- the key expressions followed by `join_key`. -/
+def wk (ks : List (Row → Val)) : List (Row → Val) := ks.map (fun f r => joinKey (f r))
+
+/-- `HashJoinExecutor<T>::execute`. -/
+def hashJoinW (t : JoinType) (lk rk : List (Row → Val)) (nL nR : Nat) (Ls Rs : List Chunk) : List Chunk :=
+  hashJoin t (wk lk) (wk rk) nL nR Ls Rs
+
+/-- `HashSemiJoinExecutor::execute`. -/
+def hashSemiJoinW (anti : Bool) (lk rk : List (Row → Val)) (Ls Rs : List Chunk) : List Chunk :=
+  hashSemiJoin anti (wk lk) (wk rk) Ls Rs
+
+/-- `HashSemiJoinExecutor2::execute`. -/
+def hashSemiJoin2W (anti : Bool) (lk rk : List (Row → Val)) (cond : Pred) (Ls Rs : List Chunk) : List Chunk :=
+  hashSemiJoin2 anti (wk lk) (wk rk) cond Ls Rs
+
+/-- `MergeJoinExecutor<T>::execute`. -/
+def mergeJoinW (t : JoinType) (lk rk : List (Row → Val)) (nL nR : Nat) (Ls Rs : List Chunk) : List Chunk :=
+  mergeJoin t (wk lk) (wk rk) nL nR Ls Rs
 
 end RlModel
